@@ -142,7 +142,7 @@ theorem C13c_mulSmall_fail (cap : Option Nat) (x : Big) (y : Nat)
 theorem C13c_heap_never_fails (x : Big) (op : VOp) (h : op = .pop → x ≠ []) :
     (vstep none x op).2 = true := by
   rw [vstep_eq_rstep]
-  cases op <;> simp only [rstep, fits] <;> simp_all
+  cases op <;> simp only [rstep, fits] <;> (try split) <;> simp_all
 
 example : vstep (some 2) [1, 2] (.push 3) = ([1, 2], false) := by decide
 example : vstep (some 2) [B - 1, B - 1] (.addSmall 1) = ([0, 0], false) := by decide
@@ -287,6 +287,12 @@ theorem C13g_fromU64 (b : Nat → Nat) (x : Nat) :
     (LowVec.fromU64 b x).map LowVec.deref = some (fromU64 x) := fromU64_refines b x
 theorem C13g_len (v : LowVec) : v.len = v.deref.length := (deref_length v).symm
 
+/-- (c)+(g) at the low level a failing checked operation does not touch the buffer or the length -/
+theorem C13g_fail_untouched (g : Nat → Nat) (v : LowVec) (op : VOp) (hop : op.Checked)
+    (hf : (lowStep g v op).2 = false) : (lowStep g v op).1 = v := by
+  cases op <;> simp only [VOp.Checked] at hop <;> simp only [lowStep] at hf ⊢ <;>
+    split at hf <;> simp_all
+
 /-- (g) whole histories: visible contents and flags after every step are those of the abstract
     machine started on `[]`, whatever garbage the buffers contained -/
 theorem C13g_history (scramble : Bool) (b : Nat → Nat) (ops : List VOp) (g : Nat → Nat → Nat) :
@@ -319,7 +325,8 @@ theorem C13h_step (g1 g2 : Nat → Nat) (v1 v2 : LowVec) (op : VOp) (h : v1.dere
   have e2 := lowStep_refines g2 v2 op
   rw [h] at e1
   have e := e1.trans e2.symm
-  refine ⟨congrArg Prod.fst e, congrArg Prod.snd e, ?_⟩
+  simp only [Prod.mk.injEq] at e
+  refine ⟨e.1, e.2, ?_⟩
   rw [lowPopVal_refines, lowPopVal_refines, h]
 
 /-- (h) independence of uninitialised memory: the same history run from two arbitrary initial
